@@ -55,6 +55,11 @@ Decided here are structural clauses that are genuine necessary conditions of it 
   R-C18-12 purity: no function reachable from the anchored helpers writes a non-const object with static storage
            duration (function-local static, namespace scope); thread_local / atomic / mutex state is not decided;
            positive example in witness/c18_param_order.cpp.
+  R-C18-13 the printed text fits: for every size-limited print in prettyDouble / prettyNumber (or a file-local helper they
+           call) the longest text of the format - sign if the printed value can be negative, integer digits of the largest
+           magnitude that reaches the call after rounding to the printed precision (bounded by the comparisons with constants
+           on the branch edges every path takes, else by the type), decimals, suffix, terminator - is at most the limit, and
+           a limit larger than the destination array is not needed.  Bounds that rest on an unrecognised guard: undecided.
 
 Equivalent shapes: running indices of a loop (dst = where; ...; dst++ next to src++) are rewritten in terms of the
 loop index before distances are compared; vector::assign(first, last) stands for the push_back loop; an iterator loop
@@ -91,6 +96,14 @@ same walk (another instance of the template checked under R-C18-2/7): R-C18-8 lo
 pointer range [data()+offset, +length), remainder given as `separator + 3`), R-C18-9 decides the store order from the
 flag idiom (a bool local, false at first: first call takes the file name and stores nothing, every later call stores
 exactly once, on every path of the lambda).
+
+Round 8: removeArgs may close the gap by alternatives on separate branches - the tail shifted down (sources
+[where+howMany, ac), upwards walk) or the front slid up (sources [0, where), destination = source + howMany, which must be
+walked downwards, followed by `av += howMany`); an upwards walk of the front slide, a missing / misplaced advance of av and
+wrong ranges are recognised wrong.  FileName: a sibling may ask ext() (contract checked on ext() itself): "" without
+extension dot, name[dot+1, end) with one - which is empty, too, when the name ends in its extension dot; `.empty()` /
+`.size()` of the result, `size() - ext().size() [- 1]`, `filename.back() == '.'` / `filename[pos] == '.'` are followed, so a
+return reached with "extension dot present, ext() empty" that does not cut at the dot is reported with that cause.
 
 Helpers: file-local / private helpers are followed with parameters mapped (FileName position helpers are
 summarised into the typestate, a prefix-length index loop stands for std::mismatch, a lookup helper that scans
@@ -2593,6 +2606,276 @@ def check_ladder(ctx, tu, qname):
 
 
 # ====================================================================================================
+#  R-C18-13  the printed text fits: bound of a size-limited print vs. the longest text its format can produce
+# ====================================================================================================
+DBL_MAX = 1.7976931348623157e308
+FLT_MAX = 3.4028234663852886e38
+FMT_RE = re.compile(r'%(?P<flags>[-+ 0#]*)(?P<width>\d+)?(?:\.(?P<prec>\d+))?(?P<len>hh|h|ll|l|z|j|t|L)?(?P<conv>[a-zA-Z%])')
+
+
+def _int_type_max(ct):
+    """(largest magnitude, signed?) of an integer type name"""
+    t = plain_ct(ct or '')
+    t = {'size_t': 'unsigned long', 'std::size_t': 'unsigned long', 'uint64_t': 'unsigned long', 'int64_t': 'long',
+         'uint32_t': 'unsigned int', 'int32_t': 'int', 'ssize_t': 'long', 'ptrdiff_t': 'long'}.get(t, t)
+    uns = t.startswith('unsigned')
+    bits = 64 if 'long' in t else 16 if 'short' in t else 8 if 'char' in t else 32
+    return (2 ** bits - 1, False) if uns else (2 ** (bits - 1), True)
+
+
+def value_bounds(tu, x, fr, e, pos):
+    """(largest magnitude, may be negative?, exact?) of the numeric expression e evaluated at CFG position pos of the
+    top-level pretty printer: the input (or |input|) times / over a constant, bounded by the comparisons of the input with
+    constants on the branch edges every path to pos takes; otherwise the range of its type (exact = False)."""
+    e0 = tu.strip(e, casts=True)
+    ct = plain_ct(tu.sd(e0).get('ct') or '') if e0 is not None else ''
+    ect = plain_ct(tu.sd(e).get('ct') or ct)
+    r, rfr = fr.resolve(e)
+    scale = 1.0
+    num = r
+    if r is not None and r.get('kind') == 'BinaryOperator' and r.get('opcode') in ('/', '*'):
+        a, b2 = tu.kids(r)[:2]
+        av, bv = rfr.const(a), rfr.const(b2)
+        if r['opcode'] == '/' and bv:
+            num, scale = a, 1.0 / abs(bv)
+        elif r['opcode'] == '*' and bv:
+            num, scale = a, abs(bv)
+        elif r['opcode'] == '*' and av:
+            num, scale = b2, abs(av)
+    role = rfr.role(num) if num is not None else None
+    if role is None and num is not None:
+        role = input_role(tu, x, num) if rfr is fr else None
+    # range of the type of the printed expression (after the cast, if it is narrower)
+    def type_range(t):
+        if t in ('double', 'long double'):
+            return DBL_MAX, True
+        if t == 'float':
+            return FLT_MAX, True
+        if is_int_ct(t):
+            return float(_int_type_max(t)[0]), _int_type_max(t)[1]
+        return None
+    tr = type_range(ect) or type_range(ct)
+    if role is None:
+        if tr is None:
+            return None
+        return tr[0], tr[1], False
+    par = x.vars.get(role[1])
+    pct = plain_ct(par['ct']) if par else ''
+    prange = type_range(pct)
+    if prange is None:
+        return None
+    hi, neg = prange
+    if role[0] == 'abs':
+        neg = False
+    exact = True
+    top = fr.top()
+    for cn, truth, blk in x.guards(pos):
+        c = tu.strip(cn, casts=True)
+        if c is None or c.get('kind') != 'BinaryOperator' or c.get('opcode') not in ('<', '<=', '>', '>='):
+            exact = False
+            continue
+        l, r2 = tu.kids(c)[:2]
+        op = c['opcode']
+        lv, rv = top.const(l), top.const(r2)
+        if lv is not None and rv is None:
+            l, r2, rv = r2, l, lv
+            op = {'<': '>', '<=': '>=', '>': '<', '>=': '<='}[op]
+        elif rv is None:
+            exact = False
+            continue
+        if not truth:
+            op = {'<': '>=', '<=': '>', '>': '<=', '>=': '<'}[op]
+        grole = top.role(l)
+        if grole is None or grole[1] != role[1]:
+            exact = False
+            continue
+        if op in ('<', '<=') and rv >= 0 and (grole[0] == 'abs' or not prange[1]):
+            hi = min(hi, rv)
+        elif op in ('>', '>=') and grole[0] == 'param' and prange[1] and rv >= 0:
+            neg = False                      # value > c >= 0
+    m = hi * scale
+    if tr is not None and m > tr[0]:
+        m = tr[0]
+    return m, neg, exact
+
+
+def format_room(tu, x, fr, call, pos):
+    """(needed bytes incl. terminator, description of the longest text, exact?) for a printf-family call, or (None, why, _)"""
+    args = tu.kids(call)[1:]
+    fi = None
+    for i, a in enumerate(args):
+        a0 = tu.strip(a, casts=True)
+        if a0 is not None and a0.get('kind') == 'StringLiteral':
+            fi = i
+            break
+    if fi is None:
+        return None, 'the format string is not a literal', False
+    lit = tu.strip(args[fi], casts=True).get('value', '""')
+    try:
+        fmt = bytes(lit[1:-1], 'utf-8').decode('unicode_escape')
+    except Exception:
+        return None, 'cannot read the format string %s' % lit, False
+    rest = list(args[fi + 1:])
+    total = 0
+    sample = ''
+    exact = True
+    i = 0
+    while i < len(fmt):
+        if fmt[i] != '%':
+            total += 1
+            sample += fmt[i]
+            i += 1
+            continue
+        m = FMT_RE.match(fmt, i)
+        if not m:
+            return None, 'conversion at `%s` not understood' % fmt[i:i + 6], False
+        i = m.end()
+        conv = m.group('conv')
+        if conv == '%':
+            total += 1
+            sample += '%'
+            continue
+        if not rest:
+            return None, 'more conversions than arguments', False
+        a = rest.pop(0)
+        width = int(m.group('width') or 0)
+        flags = m.group('flags') or ''
+        if conv == 'c':
+            ln, txt = 1, (fr.char(a) or '?')
+        elif conv in 'fF':
+            prec = int(m.group('prec')) if m.group('prec') is not None else 6
+            vb = value_bounds(tu, x, fr, a, pos)
+            if vb is None:
+                return None, 'cannot bound the value `%s`' % tu.show(a), False
+            mag, neg, ex = vb
+            exact = exact and ex
+            body = '%.*f' % (prec, mag)
+            if '#' in flags and prec == 0:
+                body += '.'
+            sign = '-' if neg else ('+' if '+' in flags else ' ' if ' ' in flags else '')
+            txt = sign + body
+            ln = len(txt)
+        elif conv in 'eEgGaA':
+            prec = int(m.group('prec')) if m.group('prec') is not None else 6
+            ln = prec + 9
+            txt = '-' + 'd.' + 'd' * prec + 'e+ddd'
+            exact = False
+        elif conv in 'diu':
+            vb = value_bounds(tu, x, fr, a, pos)
+            if vb is None:
+                return None, 'cannot bound the value `%s`' % tu.show(a), False
+            mag, neg, ex = vb
+            exact = exact and ex
+            if conv == 'u':
+                neg = False
+            body = str(int(mag))
+            sign = '-' if neg else ('+' if '+' in flags else ' ' if ' ' in flags else '')
+            prec = int(m.group('prec')) if m.group('prec') is not None else 0
+            txt = sign + body.rjust(prec, '0')
+            ln = len(txt)
+        elif conv == 's':
+            a0 = tu.strip(a, casts=True)
+            if a0 is not None and a0.get('kind') == 'StringLiteral':
+                try:
+                    txt = bytes(a0.get('value', '""')[1:-1], 'utf-8').decode('unicode_escape')
+                except Exception:
+                    return None, 'cannot read the string argument', False
+                ln = len(txt)
+            else:
+                return None, 'the length of the string argument `%s` is not known' % tu.show(a), False
+        else:
+            return None, 'conversion %%%s not understood' % conv, False
+        if width > ln:
+            txt = txt.rjust(width)
+            ln = width
+        total += ln
+        sample += txt if len(txt) <= 24 else (txt[:10] + '..' + txt[-8:])
+    return total + 1, sample, exact
+
+
+def check_print_room(ctx, tu, qnames):
+    R = 'R-C18-13'
+    ctx.describe(R, 'the printed text fits: the size limit of every snprintf in prettyDouble / prettyNumber (and the array it '
+                    'writes) holds the longest text its format produces for the values that reach it - sign, integer digits of '
+                    'the largest mantissa after rounding, decimals, suffix, terminator; a shorter limit silently cuts off the suffix')
+    n = 0
+    for q in qnames:
+        for f in tu.fns(q=q):
+            if f['dep'] or tu.cfg(f) is None:
+                continue
+            x = FnX(tu, f)
+            fr0 = LFrame(tu, f)
+            file, fname = tu.fn_file(f), fn_name(f)
+            sites = []
+            for b, i, nd in x.g.stmts():
+                if nd.get('kind') != 'CallExpr':
+                    continue
+                if tu.sd(nd).get('q') in PRINTF_Q:
+                    sites.append((nd, fr0, (b.id, i)))
+                    continue
+                hf = tu.callee_fn(nd)      # a file-local helper that does the printing: its arguments are the caller's
+                if hf is not None and not hf['dep'] and tu.cfg(hf) is not None and hf['id'] != f['id'] and \
+                        tu.fn_file(hf) == tu.fn_file(f):
+                    for b2, i2, y in tu.cfg(hf).stmts():
+                        if y.get('kind') == 'CallExpr' and tu.sd(y).get('q') in PRINTF_Q:
+                            sites.append((y, LFrame(tu, hf, fr0, nd), (b.id, i)))
+            for nd, fr, pos in sites:
+                n += 1
+                qn = last_name(tu.sd(nd).get('q'))
+                args = tu.kids(nd)[1:]
+                inst = '%s: `%s`' % (fname, tu.show(nd))
+                loc = tu.loc(nd)
+                key = '%s|%s|%s|' % (R, file, fname)
+                if not args:
+                    ctx.undecided(R, inst, 'print without arguments', loc)
+                    continue
+                # capacity of the destination
+                cap = None
+                dst = tu.strip(args[0], casts=True)
+                dct = tu.sd(dst).get('ct') or '' if dst is not None else ''
+                mcap = re.match(r'^(?:const )?(?:unsigned |signed )?char\s*\[(\d+)\]$', dct)
+                if mcap:
+                    cap = int(mcap.group(1))
+                limit = None
+                if qn in ('snprintf', 'sprintf_s') and len(args) >= 2:
+                    lv = num_const(tu, args[1])
+                    if lv is None:
+                        r_, fr_ = fr.resolve(args[1])
+                        lv = num_const(tu, r_) if r_ is not None else None
+                    if lv is None:
+                        ctx.undecided(R, inst, 'the size limit `%s` is not a constant' % tu.show(args[1]), loc)
+                        continue
+                    limit = int(lv)
+                need, sample, exact = format_room(tu, x, fr, nd, pos)
+                if need is None:
+                    ctx.undecided(R, inst, sample, loc)
+                    continue
+                room = limit if limit is not None else cap
+                if room is None:
+                    ctx.undecided(R, inst, 'neither a size limit nor the size of the destination array is known', loc)
+                    continue
+                if limit is not None and cap is not None and limit > cap and need > cap:
+                    ctx.violation(R, inst, 'the size limit %d exceeds the destination array of %d bytes, and the text can take %d '
+                                  'bytes ("%s" and the terminator)' % (limit, cap, need, sample), loc, key=key + 'limit-exceeds-buffer')
+                elif need <= room:
+                    ctx.ok(R, inst, 'longest text "%s": %d bytes with the terminator, room for %d' % (sample, need, room), loc)
+                elif exact:
+                    ctx.violation(R, inst, 'the longest text this print produces is "%s" (%d characters and the terminator = %d bytes) '
+                                  'but only %d bytes are allowed: %s' % (
+                                      sample, need - 1, need, room,
+                                      'snprintf cuts the text off after %d characters ("%s"), so the end of the text - the unit suffix - is '
+                                      'lost and the number reads as a plain value (the count forgets %s)'
+                                      % (room - 1, sample[:room - 1], 'the minus sign of a negative input' if sample.startswith('-') and
+                                         need - 1 <= room else 'the digits of the largest mantissa') if limit is not None else
+                                      'the text overruns the destination array'),
+                                  loc, key=key + 'text-truncated')
+                else:
+                    ctx.undecided(R, inst, 'the text may need %d bytes ("%s") if the value is not bounded by anything the rule '
+                                  'recognises; %d bytes are allowed' % (need, sample, room), loc)
+    return n
+
+
+# ====================================================================================================
 #  loops
 # ====================================================================================================
 class CountLoop:
@@ -2983,6 +3266,7 @@ def check_remove_args(ctx, tu):
             continue
         n += 1
         x = FnX(tu, f)
+        g = x.g
         file, fname = tu.fn_file(f), fn_name(f)
         inst = '%s %s' % (fname, f['fty'])
         key = '%s|%s|%s|' % (R, file, fname)
@@ -2992,46 +3276,142 @@ def check_remove_args(ctx, tu):
             continue
         AC, AV, WH, HM = [Poly.atom(('var', p['id'], p['name'])) for p in ps]
         und, bad = [], []
-        for p in ps[1:]:
+        for p in ps[2:]:
             v = x.vars[p['id']]
-            if v['defs'] or (v['escaped'] and p is not ps[1]):
+            if v['defs'] or v['escaped']:
                 und.append('parameter `%s` is modified' % p['name'])
         hs = loops_of(x)
-        if len(hs) != 1:
-            ctx.undecided(R, inst, 'expected exactly one shift loop, found %d' % len(hs), tu.fn_loc(f))
+        if not hs:
+            ctx.undecided(R, inst, 'expected a shift loop, found none', tu.fn_loc(f))
             continue
-        lp = CountLoop(x, hs[0])
-        if not lp.ok:
-            ctx.undecided(R, inst, lp.why, tu.fn_loc(f))
+        # how the vector parameter itself is moved: `av += howMany` (the front of the vector is given up)
+        avdefs = x.vars[ps[1]['id']]['defs']
+        advances = []
+        for kind, node, dpos in avdefs:
+            delta = None
+            if kind == 'compound' and node.get('opcode') in ('+=', '-=') and dpos is not None:
+                v = x.poly_at(tu.kids(node)[1], dpos)
+                delta = v if node['opcode'] == '+=' else -v
+            elif kind == 'inc' and dpos is not None:
+                delta = Poly.const(1 if node.get('opcode') == '++' else -1)
+            advances.append((delta, node, dpos))
+        loops = []
+        loc = tu.fn_loc(f)
+        for h in hs:
+            lp = CountLoop(x, h)
+            if not lp.ok:
+                und.append(lp.why)
+                continue
+            copies = []
+            for b, i, nd in g.stmts():
+                if nd.get('kind') == 'BinaryOperator' and nd.get('opcode') == '=' and b.id in lp.body:
+                    l, r = (tu.strip(y, casts=True) for y in tu.kids(nd)[:2])
+                    if l.get('kind') == 'ArraySubscriptExpr' and r.get('kind') == 'ArraySubscriptExpr':
+                        copies.append((nd, l, r, (b.id, i)))
+            if len(copies) != 1:
+                und.append('expected one `av[..] = av[..]` in the loop `%s`, found %d' % (tu.show(lp.cond), len(copies)))
+                continue
+            loops.append((lp, copies[0]))
+        if und and not loops:
+            for u in und:
+                ctx.undecided(R, inst, u, tu.fn_loc(f))
             continue
-        # the copy statement
-        copies = []
-        for b, i, nd in x.g.stmts():
-            if nd.get('kind') == 'BinaryOperator' and nd.get('opcode') == '=' and b.id in lp.body:
-                l, r = (tu.strip(y, casts=True) for y in tu.kids(nd)[:2])
-                if l.get('kind') == 'ArraySubscriptExpr' and r.get('kind') == 'ArraySubscriptExpr':
-                    copies.append((nd, l, r, (b.id, i)))
-        if len(copies) != 1:
-            ctx.undecided(R, inst, 'expected one `av[..] = av[..]` in the loop, found %d' % len(copies), tu.fn_loc(f))
-            continue
-        nd, l, r, pos = copies[0]
-        loc = tu.loc(nd)
-        lb, li = tu.kids(l)[:2]
-        rb, ri = tu.kids(r)[:2]
-        if x.var_of(lb)[0] != ps[1]['id'] or x.var_of(rb)[0] != ps[1]['id']:
-            und.append('the copy is not within the argument vector parameter')
-        d = x.poly_at(li, pos)
-        s_ = x.poly_at(ri, pos)
-        run_ = lp.running(pos)
-        if run_:
-            d, s_ = d.subst(run_), s_.subst(run_)
-        if not lp.once_per_iteration(pos) or not lp.once_per_iteration(lp.inc_pos):
-            und.append('the copy or the increment is not executed exactly once per iteration')
-        if lp.step != 1 or not lp.ascending_test:
-            bad.append(('direction', 'the shift loop must walk upwards by 1 (step %s, test `%s`): copying downwards '
-                        'overwrites sources before they are read' % (lp.step, tu.show(lp.cond))))
-        else:
+        # several loops: alternatives, each on its own branch (no path runs two of them)
+        if len(loops) > 1:
+            for lp, cp in loops:
+                reach = _reach_blocks(g, lp.header)
+                for lp2, cp2 in loops:
+                    if lp2 is not lp and lp2.header in reach:
+                        und.append('the shift loops `%s` and `%s` can both run on one path' % (tu.show(lp.cond), tu.show(lp2.cond)))
+            hdrs = {lp.header for lp, cp in loops}
+            seen = {g.entry}
+            st = [g.entry]
+            while st:
+                b = st.pop()
+                for s_ in g.blocks[b].succ:
+                    if s_ is not None and s_ not in seen and s_ not in hdrs:
+                        seen.add(s_)
+                        st.append(s_)
+            if g.exit in seen and g.entry not in hdrs:
+                und.append('some path through the function runs none of the %d shift loops' % len(loops))
+        used_adv = set()
+        descr = []
+        badloc = {}
+        for lp, (nd, l, r, pos) in loops:
+            for k_, m_ in bad:
+                badloc.setdefault(m_, loc)
+            loc = tu.loc(nd)
+            lb, li = tu.kids(l)[:2]
+            rb, ri = tu.kids(r)[:2]
+            if x.var_of(lb)[0] != ps[1]['id'] or x.var_of(rb)[0] != ps[1]['id']:
+                und.append('the copy is not within the argument vector parameter')
+            d = x.poly_at(li, pos)
+            s_ = x.poly_at(ri, pos)
+            run_ = lp.running(pos)
+            if run_:
+                d, s_ = d.subst(run_), s_.subst(run_)
+            if not lp.once_per_iteration(pos) or not lp.once_per_iteration(lp.inc_pos):
+                und.append('the copy or the increment is not executed exactly once per iteration')
+            if lp.step not in (1, -1) or (lp.step == 1) != bool(lp.ascending_test):
+                und.append('the loop `%s` does not walk its index range by +1 / -1 towards its bound' % tu.show(lp.cond))
+                continue
+            up = lp.step == 1
             dist = s_ - d
+            # `av` moved on the path of this loop?  (behind the loop, once)
+            mine = []
+            for delta, anode, dpos in advances:
+                if dpos is None:
+                    continue
+                if dpos[0] in lp.body or dpos[0] == lp.header:
+                    und.append('`%s` is moved inside the shift loop' % ps[1]['name'])
+                elif dpos[0] in _reach_blocks(g, lp.header):
+                    mine.append((delta, anode, dpos))
+                elif lp.header in _reach_blocks(g, dpos[0]):
+                    und.append('`%s` is moved in front of the shift loop `%s`' % (ps[1]['name'], tu.show(lp.cond)))
+            for m in mine:
+                used_adv.add(id(m[1]))
+            adv = None
+            if len(mine) == 1 and mine[0][0] is not None and g.dominates((lp.header, 0), mine[0][2]):
+                # on the exit edge of the loop, every time
+                adv = mine[0][0]
+            elif mine:
+                und.append('cannot tell how far `%s` is moved behind the loop `%s`' % (ps[1]['name'], tu.show(lp.cond)))
+                continue
+            off = s_ - Poly.atom(lp.ivar)
+            if lp.ivar in off.atoms(deep=True):
+                und.append('source index `%s` is not index + constant' % s_.show())
+                continue
+            if up:
+                first, last = lp.init + off, lp.bound_excl + off            # sources [first, last), walked upwards
+            else:
+                first, last = lp.lower_incl + off, lp.init + off + 1        # sources [first, last), walked downwards
+            if dist == -HM and (adv is not None or first == Poly.const(0) or last == WH):
+                # ---- the entries in front of the removed range are slid up, the vector then starts howMany later
+                if up:
+                    bad.append(('direction', '`%s` slides av[%s, %s) up by `%s` walking upwards: source and destination overlap as soon as '
+                                'more than %s entries are moved (where > howMany), so an entry is overwritten before it is read and the '
+                                'leading arguments become copies of av[0, %s) ("prog a1 a2 .." -> "prog prog ..."); a move towards higher '
+                                'indices has to walk downwards' % (tu.show(nd), first.show(), last.show(), HM.show(), HM.show(), HM.show())))
+                if first != Poly.const(0):
+                    bad.append(('range-start', 'the first argument slid up is av[%s], expected av[0]' % first.show()))
+                if last != WH:
+                    bad.append(('range-end', 'arguments are slid up to av[%s), expected up to av[%s)' % (last.show(), WH.show())))
+                if adv is None:
+                    bad.append(('vector-start', 'av[0, %s) is slid up by `%s` but `%s` is not advanced by `%s` behind the loop: the caller '
+                                'still sees the stale entries av[0, %s) in front' % (WH.show(), HM.show(), ps[1]['name'], HM.show(), HM.show())))
+                elif adv != HM:
+                    bad.append(('vector-start', '`%s` is advanced by `%s`, expected `%s`' % (ps[1]['name'], adv.show(), HM.show())))
+                descr.append('av[%s] = av[%s] for %s from %s down to %s; av += howMany' % (d.show(), s_.show(), lp.iname, lp.init.show(),
+                                                                                         (lp.lower_incl.show() if not up else '?')))
+                continue
+            # ---- the entries behind the removed range are shifted down
+            if adv is not None:
+                bad.append(('vector-start', '`%s` is advanced by `%s` although the loop `%s` shifts the tail down' %
+                            (ps[1]['name'], adv.show(), tu.show(lp.cond))))
+            if not up:
+                bad.append(('direction', 'the shift loop must walk upwards by 1 (step %s, test `%s`): copying downwards '
+                            'overwrites sources before they are read' % (lp.step, tu.show(lp.cond))))
+                continue
             if dist != HM:
                 locals_ = [a for a in dist.atoms(deep=True) if isinstance(a, tuple) and a[0] == 'var' and a[1] not in x.params]
                 if locals_:
@@ -3039,19 +3419,19 @@ def check_remove_args(ctx, tu):
                 else:
                     bad.append(('shift-distance', '`%s`: source index minus destination index is `%s`, expected `%s`'
                                 % (tu.show(nd), dist.show(), HM.show())))
-            off = s_ - Poly.atom(lp.ivar)
-            if lp.ivar in off.atoms(deep=True):
-                und.append('source index `%s` is not index + constant' % s_.show())
-            else:
-                first = lp.init + off
-                last = lp.bound_excl + off
-                if first != WH + HM:
-                    bad.append(('range-start', 'the first argument moved is av[%s], expected av[%s]' % (first.show(), (WH + HM).show())))
-                if last != AC:
-                    bad.append(('range-end', 'arguments are moved up to av[%s) , expected up to av[%s): %s'
-                                % (last.show(), AC.show(), 'the last arguments are not moved' if (AC - last).as_int() and (AC - last).as_int() > 0
-                                   else 'the loop reads behind the end of the vector')))
-        # count update after the loop
+            if first != WH + HM:
+                bad.append(('range-start', 'the first argument moved is av[%s], expected av[%s]' % (first.show(), (WH + HM).show())))
+            if last != AC:
+                bad.append(('range-end', 'arguments are moved up to av[%s) , expected up to av[%s): %s'
+                            % (last.show(), AC.show(), 'the last arguments are not moved' if (AC - last).as_int() and (AC - last).as_int() > 0
+                               else 'the loop reads behind the end of the vector')))
+            descr.append('av[%s] = av[%s] for %s in [%s, %s)' % (d.show(), s_.show(), lp.iname, lp.init.show(), lp.bound_excl.show()))
+        for k_, m_ in bad:
+            badloc.setdefault(m_, loc)
+        for delta, anode, dpos in advances:
+            if id(anode) not in used_adv:
+                und.append('`%s` is modified (`%s`) on a path the rule cannot relate to a shift loop' % (ps[1]['name'], tu.show(anode)))
+        # count update after the loop(s)
         acv = x.vars[ps[0]['id']]
         defs = acv['defs']
         if len(defs) != 1:
@@ -3066,8 +3446,10 @@ def check_remove_args(ctx, tu):
                 delta = x.poly_at(node, dpos) - AC
             elif kind == 'inc':
                 delta = Poly.const(1 if node.get('opcode') == '++' else -1)
-            if dpos[0] in lp.body or dpos[0] == lp.header:
+            if any(dpos[0] in lp.body or dpos[0] == lp.header for lp, cp in loops):
                 bad.append(('count-update', 'the argument count is changed inside the shift loop'))
+            elif any(lp.header in _reach_blocks(g, dpos[0]) for lp, cp in loops) and len(loops) > 1:
+                und.append('the argument count is changed in front of a shift loop that reads it')
             elif not x.g.postdominates(dpos, (x.g.entry, 0)) and skips_positive_count(tu, x, dpos, HM):
                 bad.append(('count-update', skips_positive_count(tu, x, dpos, HM)))
             elif not x.g.postdominates(dpos, (x.g.entry, 0)) and not bypass_only_when_zero(tu, x, dpos, HM):
@@ -3077,14 +3459,16 @@ def check_remove_args(ctx, tu):
                 bad.append(('count-update', 'the argument count changes by `%s`, expected `%s`'
                             % (delta.show() if delta is not None else '?', (-HM).show())))
         if bad:
+            seenk = set()
             for k, m in bad:
-                ctx.violation(R, inst, m, loc, key=key + k)
+                if (k, m) not in seenk:
+                    seenk.add((k, m))
+                    ctx.violation(R, inst, m, badloc.get(m, loc), key=key + k)
         elif und:
             for u in und:
                 ctx.undecided(R, inst, u, loc)
         else:
-            ctx.ok(R, inst, 'av[%s] = av[%s] for %s in [%s, %s); ac -= howMany' % (d.show(), s_.show(), lp.iname,
-                                                                                 lp.init.show(), lp.bound_excl.show()), loc)
+            ctx.ok(R, inst, '%s; ac -= howMany' % ' | '.join(descr), loc)
     return n
 
 
@@ -4114,6 +4498,37 @@ class FileNameTS:
                 return self.ev(args[0], d) == 'L'
         return False
 
+    def sib_call(self, e):
+        """the call node if e is `ext()` / `this->ext()` of the analysed FileName, or a string local initialised with it"""
+        tu = self.tu
+        if self.FKEY[0] != 'field':
+            return None
+        e = self.x.peel(e) if e is not None else None
+        for _ in range(4):
+            if e is None:
+                return None
+            if e.get('kind') == 'CXXMemberCallExpr' and tu.sd(e).get('q') == FNAME + '::ext':
+                s, obj, args = tu.call_parts(e)
+                if (obj is None or tu.is_this(obj)) and not args:
+                    return e
+                return None
+            dv, v = self.x.var_of(e)
+            if dv is None or v['param'] or 'basic_string' not in (v['ct'] or '') or \
+                    not (top_const(v['ct']) or not v['escaped']):
+                return None
+            init = self.x.single_init(dv)
+            e = self.x.peel(init) if init is not None else None
+        return None
+
+    def sib_of(self, obj, d):
+        """'EXT0' (ext() found no extension dot and returned \"\") / 'EXT' (name[dot+1, end) behind a valid dot) / None"""
+        c = self.sib_call(obj)
+        return d.get(('sib', c['id'])) if c is not None else None
+
+    def sib_state(self, d):
+        vals = [w for k2, w in d.items() if isinstance(k2, tuple) and k2 and k2[0] == 'sib' and len(k2) == 2]
+        return vals[0] if len(set(vals)) == 1 else None
+
     def ev(self, e, d):
         tu = self.tu
         x = self.x
@@ -4143,6 +4558,8 @@ class FileNameTS:
                     return 'BLEN' if self.is_base else 'LEN'
                 if name in ('size', 'length') and not real and self.base_like(obj, d):
                     return 'BLEN'           # length of the last component
+                if name in ('size', 'length') and not real and self.sib_of(obj, d) is not None:
+                    return 'Z' if self.sib_of(obj, d) == 'EXT0' else 'LEN-D-1'      # length of what ext() returned
                 if name in ('size', 'length') and not real:
                     o_ = x.peel(obj)
                     if o_ is not None and o_.get('kind') == 'CXXMemberCallExpr' and tu.sd(o_).get('q') == FNAME + '::path' and \
@@ -4207,6 +4624,8 @@ class FileNameTS:
                     return b
                 if {a, b} == {'L', 'DB'}:
                     return 'DG'            # start of the last component + position inside it
+                if (a == 'LEN-D-1' and cb == 1) or (b == 'LEN-D-1' and ca == 1):
+                    return 'LEN-D'         # length of '.' + extension, the extension being what ext() returned
             else:
                 if b == 'Z':
                     return a
@@ -4220,6 +4639,14 @@ class FileNameTS:
                     return 'DG'            # the same dot counted from the start of the whole name
                 if a == 'LEN' and b == 'BLEN':
                     return 'L'
+                if a == 'LEN' and b == 'LEN-D-1':
+                    return 'DG+1'          # start of the extension ext() returned: right behind its (valid) dot
+                if a == 'LEN' and b == 'LEN-D':
+                    return 'DG'
+                if a == 'DG+1' and cb == 1:
+                    return 'DG'
+                if a == 'LEN' and cb == 1:
+                    return 'LEN-1'
         return 'T'
 
     def truth(self, c, d):
@@ -4385,6 +4812,21 @@ class FileNameTS:
                 else:
                     self.returns.append((n, self.strval(ks[0], d), d))
             return [st]
+        if k == 'CXXMemberCallExpr' and self.sib_call(n) is n and ('sib', n['id']) not in d:
+            # ext() of the same name: by its own contract (checked for ext() itself under R-C18-8) it returns "" when the last
+            # component has no extension dot and name[dot+1, end) - which may be empty, too - when it has one
+            self.sibling_used = True
+            out = []
+            for val in ('EXT0', 'EXT'):
+                cur = self.sib_state(d)
+                if cur is not None and cur != val:
+                    continue
+                d2 = dict(d)
+                d2[('sib', n['id'])] = val
+                if val == 'EXT':
+                    d2[('sib', n['id'], 'dot')] = 'DG'
+                out.append(self.fz(d2))
+            return out
         if k in ('CallExpr', 'CXXMemberCallExpr'):
             summ = self.helper(n)
             if summ is not None:
@@ -4539,6 +4981,22 @@ class FileNameTS:
                 if o not in res:
                     res.append(o)
             return res
+        if c is not None and c.get('kind') == 'CXXMemberCallExpr' and last_name(tu.sd(c).get('q')) == 'empty' and \
+                (tu.sd(c).get('q') or '').startswith('std::basic_string<'):
+            s_, obj, args = tu.call_parts(c)
+            d = dict(st)
+            sv = self.sib_of(obj, d)
+            if sv == 'EXT0':
+                return [st] if truth else []
+            if sv == 'EXT':
+                # name[dot+1, end) is empty exactly when the extension dot is the last character of the name
+                if d.get('$dotlast') is not None:
+                    return [st] if d['$dotlast'] == truth else []
+                d['$dotlast'] = truth
+                return [self.fz(d)]
+            if self.x.objkey(obj) == self.FKEY and self.sib_state(d) == 'EXT':
+                return [] if truth else [st]          # a name with an extension dot is not empty
+            return [st]
         if c is None or c.get('kind') != 'BinaryOperator' or c.get('opcode') not in ('==', '!=', '<', '<=', '>', '>='):
             return [st]
         d = dict(st)
@@ -4546,6 +5004,40 @@ class FileNameTS:
         op = c['opcode']
         if not truth:
             op = {'==': '!=', '!=': '==', '<': '>=', '<=': '>', '>': '<=', '>=': '<'}[op]
+        # ---- a character of the name against '.'
+        if op in ('==', '!=') and (self.is_dot(l) or self.is_dot(r)):
+            ce = tu.strip(r if self.is_dot(l) else l, casts=True)
+            at = None
+            if ce is not None and ce.get('kind') == 'CXXMemberCallExpr' and last_name(tu.sd(ce).get('q')) == 'back' and \
+                    self.x.objkey(tu.call_parts(ce)[1]) == self.FKEY:
+                at = 'LEN-1'
+            elif ce is not None and ce.get('kind') == 'CXXOperatorCallExpr' and last_name(tu.sd(ce).get('q')) == 'operator[]' and \
+                    len(tu.kids(ce)) == 3 and self.x.objkey(tu.kids(ce)[1]) == self.FKEY:
+                at = self.ev(tu.kids(ce)[2], d)
+            elif ce is not None and ce.get('kind') == 'CXXMemberCallExpr' and last_name(tu.sd(ce).get('q')) == 'at' and \
+                    self.x.objkey(tu.call_parts(ce)[1]) == self.FKEY and tu.call_parts(ce)[2]:
+                at = self.ev(tu.call_parts(ce)[2][0], d)
+            isdot = None          # is the character a '.' ?
+            if at in ('DG', 'D'):
+                isdot = True
+            elif at == 'LEN-1':
+                sv = self.sib_state(d)
+                if sv == 'EXT':
+                    if d.get('$dotlast') is None:
+                        # the last character is the extension dot, or the (dot-free) extension ends the name
+                        out = []
+                        for val in (True, False):
+                            if (op == '==') == val:
+                                d2 = dict(d)
+                                d2['$dotlast'] = val
+                                out.append(self.fz(d2))
+                        return out
+                    isdot = d['$dotlast']
+                elif sv == 'EXT0' and self.lt_boundary_only():
+                    isdot = False     # a '.' as the last character lies in the last component and would be its extension dot
+            if isdot is not None:
+                return [st] if (op == '==') == isdot else []
+            return [st]
         lv, rv = self.local(l), self.local(r)
         la, ra = self.ev(l, d), self.ev(r, d)
         # ---- comparison with npos
@@ -4590,6 +5082,10 @@ class FileNameTS:
             elif a == 'N' and not eq:
                 return []
             return [self.fz(d)]
+        # ---- a position behind a character of the name against 0
+        POSITIVE = ('DG+1', 'D+1', 'L+1', 'DB+1', 'LEN-D')
+        if op in ('==', '!=') and ((la in POSITIVE and ra == 'Z') or (ra in POSITIVE and la == 'Z')):
+            return [] if op == '==' else [st]
         # ---- dot position against the separator
         flip = {'<': '>', '<=': '>=', '>': '<', '>=': '<=', '==': '==', '!=': '!='}
         if la not in ('D', 'DG', 'D?', 'DG?', 'DX') and ra in ('D', 'DG', 'D?', 'DG?', 'DX'):
@@ -4629,6 +5125,24 @@ class FileNameTS:
         if (la in ('D', 'D?') and ra not in ('N', 'LEN', 'Z')) or (ra in ('D', 'D?') and la not in ('N', 'LEN', 'Z')):
             self.unknown_cmp.append(c)
         return [st]
+
+    def lt_boundary_only(self):
+        """ext() counts a dot that is the first character of the last component as the extension dot (`dot < start` is the
+        only way it rejects a dot): then a name without extension dot cannot end in '.'"""
+        tu = self.tu
+        memo = FileNameTS.SUMMARIES.setdefault(id(tu), {})
+        if 'ext-boundary' not in memo:
+            res = False
+            fs = [f for f in tu.fns(q=FNAME + '::ext') if not f['dep'] and tu.cfg(f) is not None]
+            if len(fs) == 1 and fs[0]['id'] != self.f['id']:
+                sub = FileNameTS(tu, fs[0], self.field)
+                kinds = {}
+                search_kinds(tu, sub, fs[0], kinds, 0)
+                sub.run()
+                cls = {b[0] for b in sub.boundaries}
+                res = set(kinds) == {'last'} and not sub.unknown_cmp and cls <= {'lt'}
+            memo['ext-boundary'] = res
+        return memo['ext-boundary']
 
     def run(self):
         self.g.explore([()], self.transfer, self.refine)
@@ -4786,6 +5300,12 @@ def check_filename(ctx, tu):
                 ctx.ok(R8, rinst, 'returns %s' % show_str(got), tu.loc(node))
             elif has_T(got):
                 ctx.undecided(R8, rinst, 'cannot classify the returned string (%s)' % show_str(got), tu.loc(node))
+            elif d.get('$dotlast') is True and ts.sib_state(d) == 'EXT' and not mentions_dot(got):
+                ctx.violation(R8, rinst, 'returns %s, expected %s: this return is reached when ext() returned an empty string, which '
+                              'the code takes for "no extension"; ext() is also empty when the last component ends in its extension '
+                              'dot ("notes.", ".."), and then the dot must still be cut off (dropExt().base() != name(), setExt(".x") '
+                              'gives "notes..x")' % (show_str(got), ' or '.join(sorted({show_str(w) for w in want}))),
+                              tu.loc(node), key='%s|%s|%s|empty-ext-taken-for-no-dot' % (R8, file, fname))
             else:
                 ctx.violation(R8, rinst, 'returns %s, expected %s' % (show_str(got), ' or '.join(sorted({show_str(w) for w in want}))),
                               tu.loc(node), key='%s|%s|%s|cut' % (R8, file, fname))
@@ -4861,7 +5381,7 @@ def check_filename(ctx, tu):
 
 
 def mentions_dot(s):
-    if s in ('D', 'D+1', 'DG', 'D-L'):
+    if s in ('D', 'D+1', 'DG', 'D-L', 'DG+1'):
         return True
     if isinstance(s, tuple):
         return any(mentions_dot(y) for y in s)
@@ -7434,6 +7954,7 @@ def run_on(ctx, tu_drv, tu_url, tu_fn, tu_common, tu_w):
     b3, b10 = check_ladder(ctx, tu_common, 'rkcommon::prettyNumber')
     n3 = a3 + b3
     ctx.floor('R-C18-3', n3, 12, 'prettyDouble: 11 rungs, prettyNumber: 6 rungs on the pinned tree')
+    check_print_room(ctx, tu_common, ['rkcommon::prettyDouble', 'rkcommon::prettyNumber'])
     # positive example: /repo prints its mantissas with %.1f today, so R-C18-10 has no instance there
     rec = _Recorder()
     check_ladder(rec, tu_w, 'rkverif::c18w::prettyLossy')
